@@ -20,7 +20,12 @@ func main() {
 			"sets (the one in force holds at exactly one snapshot height); (3) vote-message streams (honest votes + one kind of non-honest message) are fed to a real Smr collector. "+
 			"Answers are compared with a vote-counting model written from the statement (distinct valid members vs n-floor((n-1)/3)-1). A case is distinct by (entry point, n, "+
 			"collector role, multiset of entry kinds per member, signature-bytes policy / set overlap / message sequence); non-trivial = contains an entry that must not count or lies "+
-			"within 1 of the threshold. CalVotesThreshold is tabulated for n=0..40 x inputs 0..n+3; CheckVote gets every entry kind as a vote")
+			"within 1 of the threshold. CalVotesThreshold is tabulated for n=0..40 x inputs 0..n+3; CheckVote gets every entry kind as a vote. "+
+			"(4) HISTORY differential: long-lived real Smr instances live through seeded histories (proposal messages, justify merges of confirmed / sibling blocks into the vote store, "+
+			"vote collection, votes re-loaded after restart) and check certificates of the same classes after every step; every verdict must be the model's and a fresh instance's; the same "+
+			"for tdpos / xpoa instances before / after ProcessConfirmBlock of accepted blocks and their redo siblings. (5) READ FAULTS: every ledger read of one tdpos / xpoa CheckMinerMatch call "+
+			"is failed in turn (alone / with all later reads): a block refused with healthy storage must not be accepted; nil / empty validator lists never make a certificate acceptable; "+
+			"the collector with an election whose k-th validator lookup answers nil / empty (what tdpos / xpoa GetValidators do on a failed read) never certifies below the threshold")
 	sn.InitLogs()
 	m := NewMaterial()
 
@@ -39,6 +44,11 @@ func main() {
 	step("collector-concurrent", concurrentDupPart)
 	step("proposal-path", proposalPathPart)
 	step("reorg", reorgPart)
+	step("empty validator list", emptySetProbes)
+	step("history", historyPart)
+	step("history tdpos/xpoa", bcsHistoryPart)
+	step("read faults", readFaultPart)
+	step("collector lookup faults", collectorLookupFaultPart)
 
 	r.Exhaustive(false) // the n<=4 box is exhaustive (see counters exhaustive.*), n=5..10 is sampled
 	r.Extra("exhaustive_box", "all multisets of <= n+2 entries over {valid, non-member, wrong-id, damaged, mismatch} x members, n = 1..4")
@@ -60,9 +70,13 @@ func main() {
 	r.Floor("CheckVote.rejected", 50)
 	bcsFloors(r)
 	collectorFloors(r)
+	historyFloors(r)
+	readFaultFloors(r)
 	r.Assume("the 'collector' of a certificate is the signer of the proposal that carries it (block proposer in CheckMinerMatch); whether its own signature counts is not enforced: must-reject uses the count WITH it, must-accept the count WITHOUT it")
 	r.Assume("ECDSA / address derivation of the crypto client are trusted (validity of an entry is by construction: which key signed which id)")
 	r.Assume("collector part: the private smr handlers handleReceivedProposal / handleReceivedVoteMsg are called synchronously through verif-tagged wrappers (export_verif.go) instead of through the network goroutines; 'certified' is observed as Smr.GetHighQC() == voted proposal")
+	r.Assume("history part: UpdateJustifyQcStatus / UpdateQcStatus / LoadVotes are called the way tdpos / xpoa ProcessConfirmBlock and their constructors call them; a 'fresh instance' is a new DefaultSaftyRules over a pending tree holding the certified proposal; the long-lived instance is asked first")
+	r.Assume("read-fault part: a storage fault is an error returned by QueryBlock / QueryBlockByHeight / CreateSnapshot / snapshot Get of the stub ledger; a panic under an injected fault is counted (readfault.*.panic-under-fault), not judged")
 	r.Assume("the stub ledger answers QueryBlock / QueryBlockByHeight / CreateSnapshot consistently; validator-set contract state is injected as snapshot content, not produced by contract calls")
 	fmt.Fprintln(os.Stderr, "c14: done")
 	sn.CleanupScratch()
